@@ -29,6 +29,10 @@ PREAMBLE = ("From Coq Require Import List NArith ZArith Bool.\n"
 CHECKER = "fun c => match c with (text, v) => Bool.eqb (accepts text) v end"
 
 LEXICAL = ("truncated", "malformed", "unicodeescape", "unknown Unicode character")
+# carriage returns in strings: raw (escaped by the transpiler since /repo 54dfdca) and directly after a
+# backslash (passed through as a pair; textwrap.indent also splits there and indents inside the literal)
+CR_SOURCES = ["`a\rb`", "3(`a\rb`)", "`a\\\rb`", "3(`a\\\rb`)", "3(λ`\\\r `;)", "‛\\\r", "3(‛\\\r)"]
+
 STRUCTURAL_MSG = ("'break' outside loop", "'continue' not properly in loop", "'return' outside function")
 
 
@@ -111,13 +115,13 @@ def mutate(rng, text):
 def check(env, sources, name="layout", shard=150, n_impl=None, n_mut=None):
     V.import_repo()
     rng = env.rng
-    sources = list(dict.fromkeys(sources))
+    sources = list(dict.fromkeys(CR_SOURCES + list(sources)))
     n_impl = n_impl or env.budget(600, 5000)
     n_mut = n_mut or env.budget(500, 4000)
     if len(sources) > n_impl:
         # the leading sources are the hand-picked seeds (kept); sample the rest
-        keep = sources[:60]
-        sources = keep + rng.sample(sources[60:], n_impl - len(keep))
+        keep = sources[:60 + len(CR_SOURCES)]
+        sources = keep + rng.sample(sources[len(keep):], n_impl - len(keep))
     res = V.pmap(impl_texts, sources, timeout=20)
     cases = []          # (origin, text, compiles, reason)
     dist = {}
